@@ -563,6 +563,179 @@ def g_subcall_program(rng, tier):
     return [{"name": "f0", "sub": False, "body": main}] + mains + subs
 
 
+def g_doloop_program(rng, tier):
+    """The SAME `do` executed again within ONE event: a `do <blocking subflow>` inside a `while` loop where between the
+    subflow's completion and the next execution of the same `do` only non-blocking statements run (`set`, `if`, the loop
+    jump, `continue`), so that the new instance is created while the completed instance of the previous iteration is still
+    in the state.  Shapes: increment first / last; the `do` under an `if` on the counter (skipped in some iterations);
+    reached again through `continue`; in an inner loop of an outer loop; the loop inside a subflow (the caller is itself
+    a callee); the called subflow ends with a nested `do` / has its own `do` loop; two different subflows alternating;
+    two calls of the same subflow in one event at DIFFERENT positions (`do s / do s`, `do s / set / do s`, one call per
+    branch of an if/else); a second dialog flow that calls the same subflow while the first one waits inside it.  The
+    callees block on bot / user / execute statements, end with a step or with a trailing `set`; a statement follows the
+    loop (spoken too early if the caller runs ahead).  Control shapes (a step between two calls) are kept at ~15 %."""
+    nm = Names()
+    lit = lambda n: {"lit": {"i": n}}  # noqa: E731
+    var = lambda v: {"var": v}  # noqa: E731
+
+    def blocking(allow_user=True):
+        r = rng.random()
+        if r < 0.45:
+            return {"b": nm.bot()}
+        if r < 0.8 and allow_user:
+            return {"u": nm.user()}
+        return {"x": [nm.act(), [], rng.choice([None, "r"])]}
+
+    def nonblocking(c=None):
+        r = rng.random()
+        v = rng.choice(VARS)
+        if r < 0.5 or c is None:
+            return {"set": [v, {"bin": ["add", var(v), lit(1)]}]}
+        if r < 0.8:
+            return {"if": [{"bin": [rng.choice(["eq", "ge"]), var(c), lit(rng.choice([0, 1]))]}, [{"set": [v, var(c)]}], [] if rng.random() < 0.6 else [{"set": ["t", lit(1)]}]]}
+        return {"while": [{"bin": ["lt", lit(1), lit(0)]}, [{"b": nm.bot()}]]}
+
+    def leaf_body():
+        """a subflow that blocks: 1-2 step statements, optional sets before / between / after"""
+        body = []
+        if rng.random() < 0.25:
+            body.append(nonblocking())
+        body.append(blocking())
+        if rng.random() < 0.45:
+            body.append(blocking())
+        if rng.random() < 0.3:
+            body.append(nonblocking())
+        return body
+
+    subs = []
+    shape = rng.choice(["plain", "plain", "plain", "under_if", "continue", "inner_loop", "loop_in_sub", "nested_callee",
+                        "callee_loop", "alternate", "twice_seq", "twice_branch", "two_flows"])
+    control = rng.random() < 0.15
+    subs.append({"name": "s0", "sub": True, "body": leaf_body()})
+    k = rng.choice([2, 2, 3])
+    inc = lambda c: {"set": [c, {"bin": ["add", var(c), lit(1)]}]}  # noqa: E731
+
+    def do_loop(c, callee, k, variant):
+        inc_first = rng.random() < 0.35
+        body = []
+        if rng.random() < 0.3:
+            body.append(nonblocking(c))
+        call = {"do": callee}
+        if variant == "under_if":
+            skip = rng.randrange(0, k + 1)
+            k = k + 1
+            call = {"if": [{"bin": ["ne", var(c), lit(skip + (1 if inc_first else 0))]}, [call], [] if rng.random() < 0.7 else [nonblocking()]]}
+        body.append(call)
+        if variant == "continue":
+            inc_first = True
+            body.append({"if": [{"bin": ["lt", var(c), lit(k if rng.random() < 0.6 else k - 1)]}, [{"continue": 1}], []]})
+            body.append(rng.choice([blocking(False), nonblocking()]))
+        elif variant == "alternate":
+            if rng.random() < 0.3:
+                body.append(nonblocking(c))
+            body.append({"do": "s1"})
+        if control:
+            body.append(blocking(False))
+        elif rng.random() < 0.4:
+            body.append(nonblocking(c))
+        body = [inc(c)] + body if inc_first else body + [inc(c)]
+        return [{"set": [c, lit(0)]}, {"while": [{"bin": ["lt", var(c), lit(k)]}, body]}]
+
+    init = [{"set": [a, lit(rng.choice([0, 0, 1]))]} for a in ["t"] + VARS]
+    main = [{"u": nm.user()}] + init
+    if rng.random() < 0.3:
+        main.append({"b": nm.bot()})
+    mains = []
+    if shape in ("plain", "under_if", "continue"):
+        main += do_loop("i", "s0", k, shape)
+    elif shape == "alternate":
+        subs.append({"name": "s1", "sub": True, "body": leaf_body()})
+        main += do_loop("i", "s0", k, shape)
+    elif shape == "inner_loop":
+        inner = do_loop("j", "s0", 2, "plain")
+        body = inner + ([nonblocking("i")] if rng.random() < 0.4 else []) + [inc("i")]
+        main += [{"set": ["i", lit(0)]}, {"while": [{"bin": ["lt", var("i"), lit(2)]}, body]}]
+    elif shape == "loop_in_sub":
+        # the caller of the loop's `do` is itself a subflow
+        subs.append({"name": "s1", "sub": True, "body": do_loop("j", "s0", k, "plain") + ([blocking()] if rng.random() < 0.5 else [])})
+        subs.reverse()
+        subs[0]["name"], subs[1]["name"] = "s0", "s1"
+        subs[0]["body"] = _rename_do(subs[0]["body"], {"s0": "s1"})
+        if rng.random() < 0.5:
+            main += [{"do": "s0"}]
+        else:
+            main += [{"set": ["i", lit(0)]}, {"while": [{"bin": ["lt", var("i"), lit(2)]}, [{"do": "s0"}, inc("i")]]}]
+    elif shape == "nested_callee":
+        # the called subflow ends with (or consists of) a nested call: two instances are created per iteration
+        subs.append({"name": "s1", "sub": True, "body": leaf_body()})
+        pre = [blocking()] if rng.random() < 0.5 else ([nonblocking()] if rng.random() < 0.5 else [])
+        post = [nonblocking()] if rng.random() < 0.4 else []
+        subs[0]["body"] = pre + [{"do": "s1"}] + post
+        main += do_loop("i", "s0", k, "plain")
+    elif shape == "callee_loop":
+        # the callee has its own `do` loop, and is itself called in a loop
+        subs.append({"name": "s1", "sub": True, "body": leaf_body()})
+        subs[0]["body"] = do_loop("j", "s1", 2, "plain")
+        main += do_loop("i", "s0", 2, "plain")
+    elif shape == "twice_seq":
+        mid = [nonblocking() for _ in range(rng.choice([0, 0, 1, 2]))]
+        main += [{"do": "s0"}] + mid + [{"do": "s0"}]
+        if rng.random() < 0.4:
+            main += [nonblocking(), {"do": "s0"}]
+    elif shape == "twice_branch":
+        main += [{"set": ["i", lit(0)]}, {"while": [{"bin": ["lt", var("i"), lit(k)]},
+                 [{"if": [{"bin": ["eq", var("i"), lit(rng.choice([0, 1]))]}, [{"do": "s0"}], [{"do": "s0"}]]}, inc("i")]]}]
+    else:   # two_flows: f1 calls s0 (same position in its own body) while f0 waits at a `user` statement inside s0
+        subs[0]["body"] = [{"b": nm.bot()}, {"u": nm.user()}] + ([{"b": nm.bot()}] if rng.random() < 0.5 else [])
+        main = [{"u": nm.user()}, {"do": "s0"}] if rng.random() < 0.5 else main + [{"do": "s0"}]
+        other = [{"u": nm.user()}, {"do": "s0"}]
+        if rng.random() < 0.5:
+            other.append({"b": nm.bot()})
+        mains.append({"name": "f1", "sub": False, "body": other})
+    main.append({"b": nm.bot()})           # the statement after the loop / the last call
+    if rng.random() < 0.3:
+        main.append(blocking())
+    return [{"name": "f0", "sub": False, "body": main}] + mains + subs
+
+
+def _rename_do(stmts, m):
+    out = []
+    for s in stmts:
+        if "do" in s:
+            out.append({"do": m.get(s["do"], s["do"])})
+        elif "if" in s:
+            out.append({"if": [s["if"][0], _rename_do(s["if"][1], m), _rename_do(s["if"][2], m)]})
+        elif "while" in s:
+            out.append({"while": [s["while"][0], _rename_do(s["while"][1], m)]})
+        else:
+            out.append(s)
+    return out
+
+
+def same_do_again_profile(flows):
+    """AST-level: does some `do` sit in a loop body (any depth), and is the same subflow called at two places"""
+    t = set()
+    names = []
+
+    def walk(stmts, wd):
+        for s in stmts:
+            if "do" in s:
+                names.append(s["do"])
+                if wd:
+                    t.add("do-in-while:w%d" % min(wd, 3))
+            elif "if" in s:
+                walk(s["if"][1], wd)
+                walk(s["if"][2], wd)
+            elif "while" in s:
+                walk(s["while"][1], wd + 1)
+
+    for f in flows:
+        walk(f["body"], 0)
+    if len(names) != len(set(names)):
+        t.add("do:same-subflow-at-two-places")
+    return t
+
+
 def if_in_while_profile(flows):
     """{(while depth, if depth)} of every `if` that sits inside a loop (AST level), for the distribution counters"""
     out = set()
@@ -1236,6 +1409,13 @@ def gen_cases(rng, tier):
         for mode in ("follow", "follow", "leave"):
             cases.append({"kind": "fn" if sub6.random() < 0.88 else "rt", "flows": flows, "history": g_history(sub6, flows, mode), "seed": sub6.randrange(1 << 30)})
         cases.append({"kind": "fn", "flows": flows, "history": g_reentry_history(sub6, flows), "seed": sub6.randrange(1 << 30)})
+    # the same `do` executed again within one event (blocking subflows called in loops with nothing blocking in between)
+    sub7 = random.Random(rng.randrange(1 << 30))
+    for _ in range(60 if tier == "quick" else 700):
+        flows = g_doloop_program(sub7, tier)
+        for mode in ("follow", "follow", "leave"):
+            cases.append({"kind": "fn" if sub7.random() < 0.88 else "rt", "flows": flows, "history": g_history(sub7, flows, mode), "seed": sub7.randrange(1 << 30)})
+        cases.append({"kind": "fn", "flows": flows, "history": g_reentry_history(sub7, flows), "seed": sub7.randrange(1 << 30)})
     return cases
 
 
@@ -1248,9 +1428,9 @@ def escalate(rng, focus, tier):
             cases.append({"kind": "fn", "flows": focus["flows"], "history": g_history(rng, focus["flows"], rng.choice(["follow", "leave", "leave"])), "seed": rng.randrange(1 << 30)})
     sub = random.Random(rng.randrange(1 << 30))
     n = 500 if tier == "quick" else 2000
-    for _ in range(n):
-        flows = g_program(sub, tier)
-        for mode in ("follow", "leave", "leave"):
+    for i in range(n):
+        flows = (g_program, g_program, g_doloop_program, g_subcall_program, g_chain_program)[i % 5](sub, tier)
+        for mode in ("follow", "leave", "leave") if i % 5 < 2 else ("follow", "follow", "leave"):
             cases.append({"kind": "fn", "flows": flows, "history": g_history(sub, flows, mode), "seed": sub.randrange(1 << 30)})
     return cases
 
@@ -1424,11 +1604,33 @@ def decide(history_real, cfgs, rails_config=None):
         return {"exc": type(e).__name__ + ":" + str(e)[:80]}
 
 
-def zombie_flags(history, cfgs_factory):
+def _uid_watch(w, k, st):
+    """Recorded on every state the real compute_next_state returns: the uids of its flow states (the hypothesis
+    `UidsOK` of the Lean theorems: pairwise distinct), dangling `interrupted_by` references, and whether a COMPLETED and
+    a live instance of the same flow sit side by side (= the same subflow was called again within the event)."""
+    fl = _M.fl
+    w["states"] += 1
+    uids = [fs.uid for fs in st.flow_states]
+    w["max_flows"] = max(w["max_flows"], len(uids))
+    if len(set(uids)) != len(uids) and w["dup"] is None:
+        d = next(u for u in uids if uids.count(u) > 1)
+        w["dup"] = {"prefix": k, "uid": str(d)[:60], "flows": [[fs.flow_id, fs.status.name, fs.head] for fs in st.flow_states if fs.uid == d]}
+    done = {fs.flow_id for fs in st.flow_states if fs.status == fl.FlowStatus.COMPLETED}
+    live = {fs.flow_id for fs in st.flow_states if fs.status in (fl.FlowStatus.ACTIVE, fl.FlowStatus.INTERRUPTED)}
+    if done & live:
+        w["twin"] += 1
+    for fs in st.flow_states:
+        if fs.status == fl.FlowStatus.INTERRUPTED and fs.interrupted_by is not None and fs.interrupted_by not in uids and w["dangling"] is None:
+            w["dangling"] = {"prefix": k, "flow": fs.flow_id, "head": fs.head}
+
+
+def zombie_flags(history, cfgs_factory, uidw=None):
     """flags[k]: while replaying prefix k through the real compute_next_state some flow state was left ACTIVE
     with a negative head (= it ran to its end within its starting event). Structural signature of the open
     finding `flow-finished-on-start-event`, observed on the implementation's own state."""
     fl = _M.fl
+    if uidw is None:
+        uidw = {"states": 0, "max_flows": 0, "dup": None, "twin": 0, "dangling": None}
 
     def walk(actual):
         st = fl.State(context={}, flow_states=[], flow_configs=cfgs_factory(), rails_config=None)
@@ -1444,6 +1646,7 @@ def zombie_flags(history, cfgs_factory):
                 return out
             z = z or any(fs.status == fl.FlowStatus.ACTIVE and isinstance(fs.head, int) and fs.head < 0 for fs in st.flow_states)
             out.append(z)
+            _uid_watch(uidw, len(out), st)
         return out
 
     if not any(ev["e"] == "hide" for ev in history):
@@ -1950,7 +2153,9 @@ def run_impl_fn(case):
             if not same_decision(d, used[k]):
                 fresh_diff.append([k, d, used[k]])
         obs["fresh_diff"] = fresh_diff
-        obs["zombie"] = zombie_flags(history, lambda: load_configs(src))
+        uidw = {"states": 0, "max_flows": 0, "dup": None, "twin": 0, "dangling": None}
+        obs["zombie"] = zombie_flags(history, lambda: load_configs(src), uidw)
+        obs["uids"] = uidw
         # shared element dicts after use: still the same model elements?
         mc2, _ = model_cfgs(used_cfgs)
         obs["cfgs_changed_by_use"] = (mc2 != mc) or (list(used_cfgs) != [f["name"] for f in case["flows"]])
@@ -2111,6 +2316,16 @@ def compare(case, obs, mouts):
             i = next((i for i, (a, b) in enumerate(zip(c["keys"], ak)) if a != b), min(len(c["keys"]), len(ak)))
             return (f"annotation pass: `_next_on_break` / `_next_on_continue` of element {i} of flow {f['name']}: "
                     f"model compileA {c['keys'][i:i+1]} parser {ak[i:i+1]}")
+    # uid tie: the Lean model hands out uids from a counter, and its theorems about calls and returns (call_subflow_uid_fresh,
+    # uids_pairwise_distinct, resume_unwinds_stack, next_step_is_flow_statement_with_do) rest on `UidsOK`: the uids of the
+    # flow states of every state are pairwise distinct.  Checked here on every state the real compute_next_state returned
+    # while replaying the history (uuid4 in the code as it is).
+    uw = obs.get("uids")
+    if uw and uw.get("dup"):
+        d = uw["dup"]
+        return (f"uid tie: the state after event {d['prefix']} holds several flow states with the SAME uid {d['uid']!r}: {d['flows']} "
+                f"(the model allocates fresh uids: call_subflow_uid_fresh / uids_pairwise_distinct; with equal uids the resume loop's "
+                f"lookup of `interrupted_by` can hit a COMPLETED older instance: call_site_uid_counterexample)")
     # slide tie
     for s, m in zip(obs["slides"], slides):
         o = s["out"]
@@ -2395,6 +2610,8 @@ def signature(case, obs, msg):
         return "follow"
     if msg.startswith("generated structured source") or msg.startswith("parser produced"):
         return "parse"
+    if msg.startswith("uid tie"):
+        return "uid-tie"
     return None
 
 
@@ -2438,6 +2655,14 @@ def tags(case, obs):
         t.append("exc:" + next(d["exc"] for d in obs["used"] if "exc" in d))
     if obs.get("hangs"):
         t.append("hang-observed")
+    t += sorted(same_do_again_profile(case["flows"]))
+    uw = obs.get("uids") or {}
+    if uw.get("twin"):
+        t.append("state:completed+live-instance-of-same-flow")
+    if uw.get("max_flows", 0) >= 3:
+        t.append("state:flows>=3")
+    if uw.get("dangling"):
+        t.append("state:dangling-interrupted_by")
     for wd, idp in sorted(if_in_while_profile(case["flows"])):
         t.append("if-in-while:w%d-i%d" % (min(wd, 3), min(idp, 4)))
     if obs.get("if_in_loop"):
